@@ -174,7 +174,7 @@ static int update_cf_length(uint8_t* cf_pdu, uint64_t length)
 }
 
 static int prepare_acf_packet(uint8_t* acf_pdu,
-                              frame_t frame) {
+                              frame_t frame, Avtp_CanVariant_t variant) {
 
     int processedBytes;
     struct timespec now;
@@ -192,21 +192,21 @@ static int prepare_acf_packet(uint8_t* acf_pdu,
     Avtp_Can_SetField(pdu, AVTP_CAN_FIELD_MTV, 1U);
 
     // Set required CAN Flags
-    can_id = (can_variant == AVTP_CAN_FD) ? frame.fd.can_id : frame.cc.can_id;
+    can_id = (variant == AVTP_CAN_FD) ? frame.fd.can_id : frame.cc.can_id;
     Avtp_Can_SetField(pdu, AVTP_CAN_FIELD_RTR, (can_id & CAN_RTR_FLAG) != 0);
 
-    if (can_variant == AVTP_CAN_FD) {
+    if (variant == AVTP_CAN_FD) {
         Avtp_Can_SetField(pdu, AVTP_CAN_FIELD_BRS, (frame.fd.flags & CANFD_BRS) != 0);
         Avtp_Can_SetField(pdu, AVTP_CAN_FIELD_ESI, (frame.fd.flags & CANFD_ESI) != 0);
     }
 
     // Copy payload to ACF CAN PDU
-    if(can_variant == AVTP_CAN_FD)
+    if(variant == AVTP_CAN_FD)
         Avtp_Can_CreateAcfMessage(pdu, frame.fd.can_id & CAN_EFF_MASK, frame.fd.data,
-                                         frame.fd.len, can_variant);
+                                         frame.fd.len, variant);
     else
         Avtp_Can_CreateAcfMessage(pdu, frame.cc.can_id & CAN_EFF_MASK, frame.cc.data,
-                                         frame.cc.len, can_variant);
+                                         frame.cc.len, variant);
 
     // An extended frame may carry an identifier that also fits 11 bits
     Avtp_Can_SetField(pdu, AVTP_CAN_FIELD_EFF, (can_id & CAN_EFF_FLAG) != 0);
@@ -278,15 +278,18 @@ int main(int argc, char *argv[])
 
             // Get payload -- will 'spin' here until we get the requested number
             //                of CAN frames.
+            Avtp_CanVariant_t frame_variant = can_variant;
             if(can_variant == AVTP_CAN_FD){
                 res = read(can_socket, &can_frame.fd, sizeof(struct canfd_frame));
+                // A socket with FD frames enabled delivers classic frames as struct can_frame
+                if (res == (int)sizeof(struct can_frame)) frame_variant = AVTP_CAN_CLASSIC;
             } else {
                 res = read(can_socket, &can_frame.cc, sizeof(struct can_frame));
             }
             if (!res) continue;
 
             uint8_t* acf_pdu = pdu + pdu_length;
-            res = prepare_acf_packet(acf_pdu, can_frame);
+            res = prepare_acf_packet(acf_pdu, can_frame, frame_variant);
             if (res < 0) goto err;
             pdu_length += res;
             cf_length += res;
